@@ -832,8 +832,11 @@ func c08HeartbeatTickers(c *core.Ctx) {
 				for _, st := range cc.Body {
 					ast.Inspect(st, func(m ast.Node) bool {
 						if call, ok := m.(*ast.CallExpr); ok {
-							if o := an.Callee(f.Info(), call); o != nil && o.Name() == beat {
-								beats = true
+							if o := an.Callee(f.Info(), call); o != nil {
+								// compare through FuncDisplay, which reports the pinned name of a renamed helper
+								if fo, isFn := o.(*types.Func); isFn && strings.HasSuffix(an.FuncDisplay(fo), ")."+beat) {
+									beats = true
+								}
 							}
 						}
 						return true
